@@ -31,6 +31,7 @@ template <class T> static std::string jplanes (const Plane3<T>* p)
     return s + "]";
 }
 
+static std::string jints (const int* a, int n) { std::string s = "["; for (int i = 0; i < n; ++i) s += (i ? "," : "") + std::to_string (a[i]); return s + "]"; }
 // every query of a frustum that involves no other object
 template <class T> static void queries (const Frustum<T>& F, Gen<T>& g, int prog, int step)
 {
@@ -40,7 +41,24 @@ template <class T> static void queries (const Frustum<T>& F, Gen<T>& g, int prog
         r.raw ("fovx", jw (F.fovx ())); r.raw ("fovy", jw (F.fovy ())); r.raw ("tfx", jw ((T) std::tan (F.fovx ()))); r.raw ("tfy", jw ((T) std::tan (F.fovy ())));
         r.raw ("aspect", jw (F.aspect ())); r.num ("degenerate", F.degenerate ());
         Plane3<T> p[6]; F.planes (p); r.raw ("planes", jplanes (p));
+        T hy[2] = {F.hither (), F.yon ()}; r.raw ("hy", jlist (hy, 2));
         r.emit ();
+    }
+    {
+        // equality: a copy compares equal; a frustum differing in exactly one of the seven state components does not
+        Rec r ("freq"); r.str ("t", t); putstate (r, "st", "o", F);
+        Frustum<T> C (F); Frustum<T> A; A = F;
+        int eq[9], ne[9];
+        eq[0] = (F == C); ne[0] = (F != C); eq[1] = (A == F); ne[1] = (A != F);
+        for (int k = 0; k < 7; ++k)
+        {
+            T a[6] = {F.nearPlane (), F.farPlane (), F.left (), F.right (), F.top (), F.bottom ()};
+            bool o = F.orthographic ();
+            if (k < 6) a[k] = a[k] + (a[k] == T (0) ? T (1) : std::abs (a[k]) / T (4)); else o = !o;
+            Frustum<T> G (a[0], a[1], a[2], a[3], a[4], a[5], o);
+            eq[2 + k] = (F == G); ne[2 + k] = (F != G);
+        }
+        r.raw ("eq", jints (eq, 9)); r.raw ("ne", jints (ne, 9)); r.emit ();
     }
     for (int k = 0; k < 3; ++k)
     {
